@@ -1,6 +1,7 @@
 package genwl
 
 import (
+	"google.golang.org/protobuf/types/dynamicpb"
 	"bytes"
 	"encoding/json"
 	"fmt"
@@ -149,6 +150,15 @@ func runC18(cfg *config, res *monitor.Result) {
 			tv := g.Random(t.md)
 			if trickyStrings(tv.Msg.ProtoReflect(), new(int), 0) >= 2 {
 				tv.Class = "json-syntax-strings"
+				cases = append(cases, tv)
+			}
+		}
+		// self-recursive types: chains far deeper than any generated value (none of the runtimes' JSON codecs limits the
+		// depth below 10000)
+		for _, depth := range []int{101, 140} {
+			for _, dc := range deepChains(t.md, depth) {
+				tv := g.Random(t.md)
+				tv.Msg, tv.Class, tv.Field = dc, fmt.Sprintf("deep-chain-%d", depth), ""
 				cases = append(cases, tv)
 			}
 		}
@@ -478,4 +488,45 @@ func trickyStrings(m protoreflect.Message, next *int, depth int) int {
 		}
 	}
 	return n
+}
+
+// deepChains returns, for a message type with a field of its own type, values nested depth levels deep: one chain
+// through the first singular such field and one through the first repeated one.
+func deepChains(md protoreflect.MessageDescriptor, depth int) []*dynamicpb.Message {
+	var out []*dynamicpb.Message
+	var single, list protoreflect.FieldDescriptor
+	for i := 0; i < md.Fields().Len(); i++ {
+		fd := md.Fields().Get(i)
+		if fd.Message() == nil || fd.Message().FullName() != md.FullName() || fd.IsMap() {
+			continue
+		}
+		if fd.IsList() && list == nil {
+			list = fd
+		} else if !fd.IsList() && single == nil && fd.ContainingOneof() == nil {
+			single = fd
+		}
+	}
+	for _, fd := range []protoreflect.FieldDescriptor{single, list} {
+		if fd == nil {
+			continue
+		}
+		cur := minimalComplete(md, 0)
+		for i := 0; i < md.Fields().Len(); i++ {
+			if f := md.Fields().Get(i); f.Kind() == protoreflect.StringKind && !f.IsList() && !f.IsMap() && f.ContainingOneof() == nil {
+				cur.Set(f, protoreflect.ValueOfString("leaf"))
+				break
+			}
+		}
+		for l := 1; l < depth; l++ {
+			parent := minimalComplete(md, 0)
+			if fd.IsList() {
+				parent.Mutable(fd).List().Append(protoreflect.ValueOfMessage(cur.ProtoReflect()))
+			} else {
+				parent.Set(fd, protoreflect.ValueOfMessage(cur.ProtoReflect()))
+			}
+			cur = parent
+		}
+		out = append(out, cur)
+	}
+	return out
 }
